@@ -449,6 +449,34 @@ def error_count_cases(binfo, scratch):
     return out
 
 
+def single_kind_cases(binfo, scratch):
+    """No injected fault: each output kind requested ALONE (and the front-end kinds in pairs); exit 0
+    needs the file.  (With all kinds requested at once a kind can be produced as a side effect of
+    another one's phases.)"""
+    out = []
+    ref = {"ai": "x.ai", "ap": "x.ap", "asy": "x.asy", "ao": "x.ao", "fm": "x.fm", "lsp": "x.lsp", "c": "x.c",
+           "java": "aldorcode/x.java", "main": "x-aldormain.c"}
+    combos = [[k] for k in ALL] + [["ai", "asy"], ["ap", "asy"], ["ai", "ap"], ["asy", "main"]]
+    for kinds in combos:
+        fl = [worlds.OUT_FLAG[c] for c in kinds]
+        w = scratch.new()
+        r = worlds.compile_world(binfo, w, {"x.as": worlds.HELLO}, fl, ["x.as"], cpu=60)
+        vsim.cleanup_world(w)
+        desc = "aldor %s x.as" % " ".join(fl)
+        verdict, detail = None, ""
+        fc = worlds.fault_class(r)
+        if fc:
+            verdict, detail = fc, (r.out + r.err)[-200:].decode("latin-1", "replace")
+        elif r.rc == 0:
+            missing = [ref[c] for c in kinds if not r.files.get(ref[c])]
+            if missing:
+                verdict, detail = "exit0-missing-output", "exit 0 but %s not written (have %s)" % (", ".join(missing), ", ".join(sorted(r.files)))
+        elif not worlds.has_diag(r) and not (r.out + r.err).strip():
+            verdict, detail = "silent-refusal", "exit %r without a word" % r.rc
+        out.append((verdict, detail, desc, "single-" + "+".join(kinds)))
+    return out
+
+
 def mixed_success_cases(binfo, scratch):
     """No injected fault: one file of the invocation is rejected, the other compiles; the rejected
     unit's outputs are not written, so the exit status must not be 0 - whichever comes first."""
@@ -557,7 +585,7 @@ def main(argv):
 
     with vsim.Scratch("c18") as scratch:
         if replay and "other_directory" in json.load(open(replay)):
-            od = [x for x in other_directory_cases(binfo, scratch) + explicit_name_cases(binfo, scratch) + error_count_cases(binfo, scratch) + odd_name_cases(binfo, scratch) + mixed_input_cases(binfo, scratch) + outdir_cases(binfo, scratch) + split_name_cases(binfo, scratch) + mixed_success_cases(binfo, scratch) + dirty_directory_cases(binfo, scratch) if x[3] == json.load(open(replay))["other_directory"]]
+            od = [x for x in other_directory_cases(binfo, scratch) + explicit_name_cases(binfo, scratch) + error_count_cases(binfo, scratch) + odd_name_cases(binfo, scratch) + mixed_input_cases(binfo, scratch) + outdir_cases(binfo, scratch) + split_name_cases(binfo, scratch) + mixed_success_cases(binfo, scratch) + dirty_directory_cases(binfo, scratch) + single_kind_cases(binfo, scratch) if x[3] == json.load(open(replay))["other_directory"]]
             vsim.say("replay: %s" % [(v, d) for v, d, _, _ in od])
             if any(v for v, _, _, _ in od):
                 vsim.say("VIOLATION property=%s replay=%s" % (PID, replay))
@@ -730,11 +758,11 @@ def main(argv):
             out.violations.append({"key": key, "cls": v2, "detail": d2, "replay": rp})
 
         # ---- saved forms in another directory (independent expectation, no fault) -----------
-        od = other_directory_cases(binfo, scratch) + explicit_name_cases(binfo, scratch) + error_count_cases(binfo, scratch) + odd_name_cases(binfo, scratch) + mixed_input_cases(binfo, scratch) + outdir_cases(binfo, scratch) + split_name_cases(binfo, scratch) + mixed_success_cases(binfo, scratch) + dirty_directory_cases(binfo, scratch)
+        od = other_directory_cases(binfo, scratch) + explicit_name_cases(binfo, scratch) + error_count_cases(binfo, scratch) + odd_name_cases(binfo, scratch) + mixed_input_cases(binfo, scratch) + outdir_cases(binfo, scratch) + split_name_cases(binfo, scratch) + mixed_success_cases(binfo, scratch) + dirty_directory_cases(binfo, scratch) + single_kind_cases(binfo, scratch)
         for verdict, detail, desc, kind in od:
             if not verdict:
                 continue
-            key = "%s:%s:%s" % (verdict, "explicit-name" if kind.startswith("name-") else "error-count" if kind.startswith("errors-") else "source-name" if kind.startswith("srcname-") else "mixed-inputs" if kind.startswith("mixed-") else "output-directory" if kind.startswith("outdir-") else "split-c-names" if kind.startswith("splitname-") else "mixed-success" if kind.startswith("mixedsuccess-") else "dirty-directory" if kind.startswith("dirty-") else "other-directory-input", kind)
+            key = "%s:%s:%s" % (verdict, "explicit-name" if kind.startswith("name-") else "error-count" if kind.startswith("errors-") else "source-name" if kind.startswith("srcname-") else "mixed-inputs" if kind.startswith("mixed-") else "output-directory" if kind.startswith("outdir-") else "split-c-names" if kind.startswith("splitname-") else "mixed-success" if kind.startswith("mixedsuccess-") else "dirty-directory" if kind.startswith("dirty-") else "single-kind" if kind.startswith("single-") else "other-directory-input", kind)
             text = out.classify(key)
             if text is not None:
                 out.known.append({"key": key, "text": text})
